@@ -131,8 +131,9 @@ Definition b2z (b : bool) : Z := if b then 1 else 0.
 Definition opt_clause (c : case) (f : report -> bool) : Z :=
   match c_impl c with Some p => b2z (f p) | None => 0 end.
 
-(* [corr; rgb; hue; sl; wb; K1; K2; K3; K4; K5] (the equality answers are judged from c_eqs directly) *)
+(* [corr; rgb; hue; sl; wb; K1; K2; K3; K4; K5 (kept in hsl or hwb form); kept in hsl form] (the equality answers are judged from c_eqs directly) *)
 Definition run (c : case) : list Z :=
   let m := model_color c in
   [ corr_with m c; opt_clause c clause_rgb; opt_clause c clause_hue; opt_clause c clause_sl; opt_clause c clause_wb;
-    b2z (known_K1 c); b2z (known_K2 c); b2z (known_K3 c); b2z (known_K4m m); b2z (known_K5m m) ].
+    b2z (known_K1 c); b2z (known_K2 c); b2z (known_K3 c); b2z (known_K4m m); b2z (known_K5m m);
+    b2z (match m with Some (CHsla _) => true | _ => false end) ].
